@@ -384,12 +384,20 @@ static int vi_prefix(void)
 	int c = vi_read();
 	if ((c >= '1' && c <= '9')) {
 		while (isdigit(c)) {
-			n = n * 10 + c - '0';
+			if (n < 100000000)	/* larger counts would overflow */
+				n = n * 10 + c - '0';
 			c = vi_read();
 		}
 	}
 	vi_back(c);
 	return n;
+}
+
+/* the count of a motion: the product of both counts, small enough to be added to a line number */
+static int vi_cnt(void)
+{
+	long long n = (long long) (vi_arg1 ? vi_arg1 : 1) * (vi_arg2 ? vi_arg2 : 1);
+	return n < 1000000000 ? n : 1000000000;
 }
 
 static int vi_col2off(struct lbuf *lb, int row, int col)
@@ -495,7 +503,7 @@ static int vi_search(int cmd, int cnt, int *row, int *off)
 /* read a line motion */
 static int vi_motionln(int *row, int cmd)
 {
-	int cnt = (vi_arg1 ? vi_arg1 : 1) * (vi_arg2 ? vi_arg2 : 1);
+	int cnt = vi_cnt();
 	int c = vi_read();
 	int mark, mark_row, mark_off;
 	switch (c) {
@@ -579,7 +587,7 @@ static int vi_curword(struct lbuf *lb, char *dst, int len, int row, int off, cha
 static int vi_motion(int *row, int *off)
 {
 	char cw[120], kw[128];
-	int cnt = (vi_arg1 ? vi_arg1 : 1) * (vi_arg2 ? vi_arg2 : 1);
+	int cnt = vi_cnt();
 	char *ln = lbuf_get(xb, *row);
 	int dir = dir_context(ln ? ln : "");
 	int mark, mark_row, mark_off;
@@ -1057,7 +1065,7 @@ static int vc_motion(int cmd)
 		return 0;
 	/* like space, l cut short by the end of the line covers the last character */
 	if (mv == 'l' && o2 >= o1 && o2 + 1 == lbuf_eol(xb, r2) &&
-			o2 - o1 < (vi_arg1 ? vi_arg1 : 1) * (vi_arg2 ? vi_arg2 : 1))
+			o2 - o1 < vi_cnt())
 		o2++;
 	lnmode = o2 < 0;
 	if (lnmode) {
